@@ -1,5 +1,6 @@
 import Nstd.Common.Basic
 import Nstd.Buffer.Model
+import Nstd.Buffer.Raw
 /-
   Line protocol of the Buffer area.  One op per line; after every op the driver prints
   the observation line for the whole state:
@@ -66,6 +67,33 @@ def parseOp (ws : List String) : Option Op :=
   | ["free", v] => do pure (.free (← v.toNat?))
   | _ => none
 
+def stdLine (st : State) (k : Nat) (ws : List String) : State × String :=
+  match parseOp ws with
+  | none => (st, "bad-op")
+  | some op =>
+    match step st k op with
+    | some st' => (st', obs st')
+    | none => (init0, "FAULT")
+
+/-- `prependraw|appendraw|assignraw v off n`: a `(pointer, size)` argument anywhere in the variable's own allocation, given
+    by its offset from `buffer` and clamped to the allocation (non-owning: offset from `bufferStart`, clamped to the
+    exposed bytes) – the same resolution the harness does on the real object.  The observation ends in ` ~ back fwd len`. -/
+def rawLine (st : State) (k : Nat) (kind : String) (v off n : Nat) : State × String :=
+  match st.getBuf v with
+  | none => (st, "bad-op")
+  | some b =>
+    let blockLen := if b.owning then b.cap + 1 else b.e - b.s
+    let s := if b.owning then b.s else 0
+    let off := if off < blockLen then off else blockLen
+    let n := if n < blockLen - off then n else blockLen - off
+    let back := if off < s then s - off else 0
+    let fwd := if off > s then off - s else 0
+    let r := if kind == "prependraw" then RawOp.prepend v back fwd n
+      else if kind == "appendraw" then RawOp.append v back fwd n else RawOp.assign v back fwd n
+    match stepRaw st k r with
+    | some st' => (st', obs st' ++ s!" ~ {back} {fwd} {n}")
+    | none => (init0, "FAULT")
+
 def stepLine (st : State) (ws : List String) : State × String :=
   match ws with
   | ["reset"] => (init0, obs init0)
@@ -95,12 +123,14 @@ def stepLine (st : State) (ws : List String) : State × String :=
     let (ws, k) := match ws.getLast? with
       | some t => if t.startsWith "cap=" then (ws.dropLast, ((t.drop 4).toNat?).getD 0) else (ws, 0)
       | none => (ws, 0)
-    match parseOp ws with
-    | none => (st, "bad-op")
-    | some op =>
-      match step st k op with
-      | some st' => (st', obs st')
-      | none => (init0, "FAULT")
+    match ws with
+    | [kind, v, off, n] =>
+      if kind == "prependraw" || kind == "appendraw" || kind == "assignraw" then
+        match v.toNat?, off.toNat?, n.toNat? with
+        | some v, some off, some n => rawLine st k kind v off n
+        | _, _, _ => (st, "bad-op")
+      else stdLine st k ws
+    | _ => stdLine st k ws
 
 end Nstd.Buffer
 
